@@ -20,7 +20,8 @@ RULE = ('Generated (start, end, pre_market, post_market) with end time-of-day >=
         'the range, equals the calendar for (start, end). Distinct = '
         'distinct case JSON; non-trivial = the range spans a weekend with >=2 business days, or is a single day, '
         'or has no business day, or crosses a month/year/leap-day boundary, or is an end<start rejection.'
-        " Round-10 reach: flags passed positionally (`flags_how='positional'`).")
+        " Round-10 reach: flags passed positionally (`flags_how='positional'`)."
+        " Round-11 reach: `peek_first` (the first event is looked at before the full pass); for ranges in other zones an engine over the same instants written in UTC is built and listed first.")
 ASSUMPTIONS = [
     'UTC-aware pandas Timestamps as in every documented example',
     'end time-of-day is not before the start time-of-day (the property\'s stated domain)',
@@ -78,6 +79,12 @@ def run_case(case):
         except ValueError:
             return Result(['rejected_end_before_start'], nontrivial=True)
         raise Violation('end %s earlier than start %s was accepted' % (end, start))
+    if tz:
+        # another engine over the very same instants, written in UTC (other calendar days), was built and listed first
+        try:
+            list(q.DailyBusinessDaySimulationEngine(start.tz_convert('UTC'), end.tz_convert('UTC'), pre_market=False, post_market=False))
+        except Exception:                                         # noqa
+            pass
     how = case.get('flags_how', 'ctor')
     if how == 'attr':
         # the public flags are re-set on the live engine (it is built with the opposite values)
@@ -100,6 +107,9 @@ def run_case(case):
         case = dict(case, pre=True, post=True)
     else:
         eng = q.DailyBusinessDaySimulationEngine(start, end, pre_market=case['pre'], post_market=case['post'])
+    if case.get('peek_first'):
+        # somebody looked at the first event only before the clock is read in full
+        next(iter(eng), None)
     got = [(e.ts, e.event_type) for e in eng]
     exp = cal.clock_events(cal.date3(case['start']), cal.date3(case['end']), case['pre'], case['post'])
     if got != exp:
@@ -131,6 +141,8 @@ def run_case(case):
         cls.append('flags_given_as_' + how)
     if tz:
         cls.append('range_given_in_another_time_zone')
+    if case.get('peek_first'):
+        cls.append('first_event_peeked_before_the_full_pass')
     nt = any(c in cls for c in ('spans_weekend', 'single_day', 'no_business_day', 'crosses_month',
                                 'crosses_year', 'contains_leap_day'))
     return Result(cls, nontrivial=nt, info={'events': len(got)})
@@ -140,6 +152,7 @@ def run_case(case):
 def cases(draw):
     start, end = draw(gen.ranges())
     case = {'start': start, 'end': end, 'pre': draw(st.booleans()), 'post': draw(st.booleans()),
+            'peek_first': draw(st.sampled_from([False, False, True])),
             'flags_how': draw(st.sampled_from(['ctor', 'ctor', 'ctor', 'attr', 'numpy', 'int', 'pre_only', 'defaults', 'positional']))}
     if draw(st.sampled_from([False] * 11 + [True])):
         # centuries away from today: the clock is calendar arithmetic, whatever resolution the timestamps use
